@@ -174,12 +174,13 @@ ADDED5 = {
  'C02': 'L7: no decoder or blob read converter narrows an integer read from the blob without a dominating test of both limits of the target type.',
  'C03': 'S9: every value test by which a decoder rejects a blob has a counterpart on the encoder side (the encoder refuses what its decoder would refuse).',
  'C04': 'P2 intended-member table corrected for set_waveform; P4: update() reads the stored row or blobs before writing (necessary for keeping bytes a snapshot cannot carry; known finding).',
- 'C07': 'T14: create_sub_crate / create_sub_crate_after / add_track / set_parent establish that the row of their own crate exists before the first write; T15: no std::string reaches a statement as a C string; T16: the id of a removed crate is not handed out again (known finding, 1.x format); T17: sibling names are unique (DDL constraint or look-up with a dependent throw).',
- 'C08': 'K7: add_track establishes before its first write that the track id names a row of Track and that its own crate exists.',
+ 'C07': 'T14: create_sub_crate / create_sub_crate_after / add_track / set_parent establish that the row of their own crate exists before the first write; T15: no std::string reaches a statement as a C string; T16: the id of a removed crate is not handed out again (known finding, 1.x format); T17: sibling names are unique (DDL constraint or look-up with a dependent throw); T18: playlist_table::add / update look the parent and the successor up before writing a position; T2 also covers playlist_table::update.',
+ 'C08': 'K7: add_track establishes before its first write that the track id names a row of Track and that its own crate exists; K8: every statement that lists or probes Track rows carries the row filter of tracks() (placeholder rows are not tracks).',
+ 'C11': 'W12: every number inserted into the MM:SS duration string has its own setw (sibling writers of one derived column agree).',
  'C10': 'N7: the creators refuse when any file the load side probes or demands already exists (rule X5 of C12).',
  'C12': 'X5: every function that opens the files of a new on-disk library refuses when a file the layout probe or a loader looks at is already there.',
  'C13': 'Y4 now evaluates the legacy branch for every enumerator (a 2.x / 3.x triple in a legacy directory is refused) and base_engine_library::load (a 1.x triple in a Database2 file is refused); Y7: each stored version component must have storage class integer (typeof), else unsupported_database.',
- 'C14': 'A7: creation is all-or-nothing (known finding); A8: multi-file transactions need a file-backed main database for an atomic COMMIT (known finding, 1.x).',
+ 'C14': 'A7: creation is all-or-nothing (known finding); A8: multi-file transactions need a file-backed main database for an atomic COMMIT (known finding, 1.x); A9: no header template of the handle classes loops over a mutating operation (known finding: add_tracks).',
  'C17': 'V7: columns are listed with table_xinfo (known finding); V8: every view has a column block (known findings for the 2.x views); V9: SQLite errors inside the validator are converted to database_inconsistency.',
  'C15': 'U2 accepts i - k under a loop that starts at a literal >= k; U11: every floating to integer conversion has its operand proved inside the target range by dominating tests of both limits, one of which held as written (excludes NaN).',
  'C18': 'B11: get / remove name their row by a complete key of the table (known finding: playlist_entity_table); B12: a row field whose column does not exist in the schema range is rejected when engaged, not dropped. B10: every per-column accessor works on the type of the row field it stands for (four known findings, one root cause).',
